@@ -47,10 +47,19 @@ def history_one(args):
             b.silent = True
         return b
 
+    instances = []
+
     def scenario(ctx):
         sched = ctx.sched
         import amqpstorm.channel as achan
         sleep = achan.time.sleep
+        orig_init = achan.Channel.__init__
+
+        def tracked_init(self_, *a, **kw):
+            orig_init(self_, *a, **kw)
+            instances.append(self_)
+        achan.Channel.__init__ = tracked_init
+        out['_restore'] = lambda: setattr(achan.Channel, '__init__', orig_init)
         conn = amqpstorm.Connection('localhost', 'guest', 'guest', lazy=True, heartbeat=sc['hb'], timeout=5)
         chans = {}            # generator id -> Channel object
         gone = set()          # generator ids whose number was handed out again (the object is unregistered)
@@ -73,6 +82,7 @@ def history_one(args):
                                 for cid, ch in list(conn._channels.items())),
                 'errs': len(conn.exceptions),
                 'objs_open': sum(1 for ch in everyone if not ch.is_closed),
+                'instances_open': sum(1 for ch in instances if ch.is_open),
             })
             return d
 
@@ -190,7 +200,17 @@ def history_one(args):
                                 per_thread[j] = ('raised', type(why).__name__ + ':' + repr(why)[:60])
                         return fn
                     ts = []
-                    if busy and chans:
+                    if busy == 'opener':
+                        # another thread asks for a new channel while close() runs
+                        def opener_fn():
+                            try:
+                                conn.channel(rpc_timeout=5)
+                            except amqpstorm.AMQPError:
+                                pass
+                            except BaseException as why:   # noqa
+                                out['problems'].append(('C08/bystander-exception:%s' % type(why).__name__, repr(why)[:80], k))
+                        ts.append(ctx.spawn(opener_fn, 'opener%d' % k))
+                    elif busy and chans:
                         victim = chans[sorted(chans)[0]]
 
                         def busy_fn():
@@ -231,6 +251,8 @@ def history_one(args):
                 if s['state'] != 0 or s['chans'] or s['objs_open']:
                     out['problems'].append(('C08/not-closed-after-close', 'after close(): state=%d registered=%r open channel objects=%d' % (
                         s['state'], s['chans'], s['objs_open']), k))
+                if s['instances_open']:
+                    out['problems'].append(('C08/open-channel-on-closed-connection', 'after close(): %d channel object(s) report open' % s['instances_open'], k))
                 if s['socks'] or s['readers']:
                     out['problems'].append(('C08/close-leaks-io', 'after close(): ' + leak, k))
                 if s['timers'] or s['hb']:
@@ -242,8 +264,12 @@ def history_one(args):
                     out['problems'].append(('C08/failed-open-leaks/%s' % op[1], 'after the failed open(): ' + leak, k))
         out['final'] = snap()
 
-    ctx = vrt.run_scenario(scenario, factory, seed=seed, p_preempt=sc.get('p_preempt', 0.15), fair_time=True,
-                           repo_path=str(common.REPO), max_steps=3000000, real_timeout=120.0)
+    try:
+        ctx = vrt.run_scenario(scenario, factory, seed=seed, p_preempt=sc.get('p_preempt', 0.15), fair_time=True,
+                               repo_path=str(common.REPO), max_steps=3000000, real_timeout=120.0)
+    finally:
+        if '_restore' in out:
+            out.pop('_restore')()
     out['abort'] = ctx.sched.abort_reason
     out['lib_excs'] = [(t.name, repr(t.exc)) for t in ctx.sched.threads if t.exc is not None and t.kind != 'app']
     out['main_exc'] = repr(ctx.main.exc) if getattr(ctx.main, 'exc', None) is not None else None
@@ -359,7 +385,10 @@ def gen_history(rng, thorough):
             else:
                 if hb and rng.random() < 0.6:
                     ops.append(['to-timer'])
-                ops.append(['close', rng.choice([1, 1, 2, 3]), rng.random() < 0.3 and bool(opened) and not silent])
+                busy = rng.random() < 0.3 and bool(opened) and not silent
+                if not silent and rng.random() < 0.2:
+                    busy = 'opener'
+                ops.append(['close', rng.choice([1, 1, 2, 3]), busy])
                 st = 'closed'
         else:   # broken: only close() is left
             ops.append(['close', rng.choice([1, 2]), False])
@@ -434,6 +463,10 @@ def check(rep):
             ops += [['confirm', 1], ['broker-close-chan', 1], ['chan-reopen', 1]]
         ops.append(['close', 1, False])
         jobs.append(({'hb': 0, 'ops': ops}, rng.randrange(1 << 30)))
+    # connection.channel() in one thread while another closes the connection
+    for _ in range(60 if not thorough else 1000):
+        ops = [['open', 'ok']] + ([['channel', 1]] if rng.random() < 0.5 else []) + [['close', rng.choice([1, 2]), 'opener']]
+        jobs.append(({'hb': 0, 'ops': ops, 'p_preempt': rng.choice([0.15, 0.3, 0.5])}, rng.randrange(1 << 30)))
     # the transport dies in the middle of a frame, close, open again: the reopened connection must work
     for _ in range(24 if not thorough else 400):
         ops = [['open', 'ok'], ['channel', 1], ['die-partial', rng.choice(['eof', 'reset']), rng.choice([1, 3, 6, 7, 8, 11, 20])],
